@@ -141,9 +141,13 @@ def remaster(report, extra_regions, data):
     return res
 
 
+LAST_UDF = {'rep': None}
+
+
 def extra_regions(data, report):
     """regions known to the other independent decoders (Rock Ridge continuation areas, UDF, boot)."""
     out = []
+    LAST_UDF['rep'] = None
     try:
         from decoders import susp
         rep = susp.decode(data)
@@ -158,6 +162,8 @@ def extra_regions(data, report):
     try:
         from decoders import udf
         rep = udf.decode(data)
+        if rep.get('vrs'):
+            LAST_UDF['rep'] = rep
         for reg in rep.get('regions', []):
             if isinstance(reg, dict) and isinstance(reg.get('start'), int):
                 r2 = {'kind': 'udf_' + str(reg.get('kind')), 'owner': str(reg.get('owner')),
@@ -193,6 +199,12 @@ def image_item(iid, data, wlog, bit_sectors=(), pad=0, do_remaster=True, expect=
         item['api'] = {}
         do_remaster = False
     item['remaster'] = remaster(report, extra, data) if do_remaster else {'fixed1': [], 'fixed2': [], 'adv1': []}
+    if LAST_UDF['rep'] is not None and any(x.get('id') == 'NSR02' or x.get('id') == 'NSR03' for x in LAST_UDF['rep'].get('vrs', [])):
+        try:
+            import check_C10
+            item['udfrep'] = check_C10.judge_view(LAST_UDF['rep'])
+        except Exception as e:  # pylint: disable=broad-except
+            item['udfrep_error'] = type(e).__name__ + ':' + str(e)[:100]
     return item
 
 
